@@ -542,6 +542,13 @@ func runePredicate(w *World, scope *ssa.Function, p ssa.Value) (*ssa.Function, f
 	if fn == nil {
 		return nil, nil
 	}
+	if fn.Synthetic != "" && len(fn.FreeVars) == 1 && len(mc.Bindings) == 1 {
+		// a method value (tbl.isInvalid): the predicate is the method, its receiver the bound value
+		if real := w.unwrap(fn); real != nil && real != fn && real.Blocks != nil && len(real.Params) > 0 {
+			bind[real.Params[0]] = mc.Bindings[0]
+			return real, resolve
+		}
+	}
 	for i, fv := range fn.FreeVars {
 		if i < len(mc.Bindings) {
 			b := mc.Bindings[i]
@@ -590,10 +597,14 @@ func c15Predicate(w *World, scope, pred *ssa.Function, resolve func(ssa.Value) s
 		start = after(al.c.(ssa.Instruction))
 		again = func(in ssa.Instruction) bool { return in == ssa.Instruction(al.next) }
 	} else {
-		if len(pred.Params) != 1 {
+		switch {
+		case len(pred.Params) == 1:
+			c = pred.Params[0]
+		case len(pred.Params) == 2 && pred.Signature.Recv() != nil:
+			c = pred.Params[1] // a method used as a method value: the receiver (the table) is bound
+		default:
 			return false, nil, false, "the predicate does not take one rune"
 		}
-		c = pred.Params[0]
 	}
 	isC := func(v ssa.Value) bool { return v == c }
 	nSpaceTrue := 0
